@@ -233,6 +233,8 @@ def run_for(ctx, pid):
                 ctx.violation("hook-drift", {"model": r["m"], "why": "the unhooked Build returns an outcome none of the hooked start orders gives",
                                              "build": str(b)[:600]}, found_input=False)
                 break
+    if pid in ("C04", "C06"):
+        gc.coq_spec_check(ctx, res)
     evaluate(ctx, pid, res)
 
 
@@ -242,6 +244,8 @@ def replay_for(ctx, pid, data):
         print(json.dumps(d, indent=1)[:4000])
         return 1
     res = gc.run_graph(ctx, [d["model"]], n_orders=6, repeat=5)
+    if pid in ("C04", "C06"):
+        gc.coq_spec_check(ctx, res)
     evaluate(ctx, pid, res)
     print(json.dumps(d["model"]))
     for (o, a, b) in res[0]["ordered"]:
